@@ -172,8 +172,32 @@ def bounded(b):
             b.case("maps/non_decreasing_across_change_points", bad_mono is None, case, bad_mono or "", nontrivial=nontriv)
             b.case("maps/inverse_undoes_forward", bad_inv is None, case, bad_inv or "", nontrivial=nontriv)
             b.case("maps/quarter_duration_map_returns_divisions_in_force", bad_qd is None, case, bad_qd or "", nontrivial=nontriv)
-    # multi-step beat-mode sequences (user beats -> notated -> default)
+    # quarter-duration edit histories: the maps follow the LATEST setting at every change point (a later call at the same time replaces the
+    # earlier one, also when it restores the value of the preceding stretch) - compared with a part built directly from the final settings
     import partitura.score as sc
+    for hist, final in ([[(0, 4), (8, 2), (8, 4)], [(0, 4)]], [[(0, 4), (8, 2), (16, 4), (16, 2)], [(0, 4), (8, 2)]], [[(0, 1), (6, 3), (6, 1)], [(0, 1)]],
+                        [[(0, 2), (12, 3), (4, 6), (12, 2)], [(0, 2), (4, 6), (12, 2)]], [[(0, 4), (8, 2), (8, 3), (8, 2)], [(0, 4), (8, 2)]]):
+        def mk(settings):
+            p = sc.Part("P", quarter_duration=settings[0][1])
+            for t, q in settings[1:]:
+                p.set_quarter_duration(t, q)
+            p.add(sc.TimeSignature(4, 4), 0)
+            p.add(sc.Note("C", 4, id="n0", voice=1), 0, 24)
+            return p
+        case = {"history": [list(x) for x in hist]}
+        ok, pair = b.guard("maps/no_exception", case, lambda: (mk(hist), mk(final)))
+        if not ok:
+            continue
+        ph, pf = pair
+        bad = None
+        for t in range(0, 25):
+            got = (int(ph.quarter_duration_map(t)), float(ph.quarter_map(t)), float(ph.beat_map(t)))
+            want = (int(O.q_in_force(pf, t)), float(O.quarter_pos(pf, t)), float(O.beat_pos(pf, t)))
+            if got[0] != want[0] or abs(got[1] - want[1]) > 1e-9 or abs(got[2] - want[2]) > 1e-9:
+                bad = "after the history, (divisions, quarter, beat) at t=%d are %r; the latest settings %r mean %r" % (t, got, final, want)
+                break
+        b.case("maps/latest_setting_in_force_after_an_edit_history", bad is None, case, bad or "")
+    # multi-step beat-mode sequences (user beats -> notated -> default)
     for seq in ([("m", {"5/8": 2}), ("n", None), ("m", {})], [("m", {"3/4": 1}), ("n", None), ("m", {}), ("n", None)], [("s", {"6/8": 3}), ("s", {})]):
         p = sc.Part("P", quarter_duration=2)
         for t, (bts, bt) in zip((0, 10, 22), ((5, 8), (6, 8), (3, 4))):
